@@ -263,8 +263,8 @@ def execute(plan, scratch):
         'text': text, 'result': res, 'events': events,
         'trace': [{'id': t['id'], 'step': t['step'], 'seq': t['seq'], 'prev': None, 'sbx': t['n_sandboxes']}
                   for t in sim.trace],
-        'spawns': [{'tag': s['tag'], 'seq': s['seq'], 'error': s.get('spawn_error'), 'exit': s['exit']}
-                   for s in own],
+        'spawns': [{'tag': s['tag'], 'seq': s['seq'], 'error': s.get('spawn_error'), 'exit': s['exit'],
+                    'killed': s['killed'], 'timed_out': bool(s.get('timed_out'))} for s in own],
         'fired': sim.fired, 'n_sandboxes': len(sim.sandboxes), 'leftover': leftover, 'final': final,
         'sbx_name': os.path.basename(sbx) if sbx else None, 'sbx_path': sbx,
         'home_unchanged': home_before == home_after,
@@ -310,7 +310,7 @@ def _model(plan, hist):
         if ph == 'act':
             expect['act'] = snap()
             stub_fault = primary is not None and ploc[0] == 7 and primary['id'] == 'act'
-            spawn_err = bool(atc.get('spawn_error')) and has_atc
+            spawn_err = (bool(atc.get('spawn_error')) or bool(atc.get('expect_kill'))) and has_atc  # (or killed at the timeout)
             # result/ is populated by the act execute step when the ATC has run
             # (after a *failed* act execute the statement does not say what result/ holds: not judged)
             st['result'] = True if (not stub_fault and not spawn_err) else None
